@@ -2,6 +2,7 @@
 //! for feed / poll / reset with symbolic time and timeout (C12, C13, C14) and the isolation /
 //! transparency / reset clauses (C15, C16, C17).
 use crate::dom::*;
+use crate::check;
 use crate::nd::Nd;
 use crate::oracle as o;
 use crate::pnm::{build, cc, check_msg_range};
@@ -186,12 +187,12 @@ pub fn gen_channel(s: &mut Scanner, c: u8, a: &ChObs) {
             (false, true) => s.feed(&scc(c, 100, first_byte)),
             (false, false) => s.feed(&scc(c, 98, first_byte)),
         };
-        assert!(none2(&r), "C14 nothing is reported before a number is complete");
+        check!(none2(&r), "C14 nothing is reported before a number is complete");
     }
     // stage 2: number LSB completes the number
     if let Num::Complete { lsb, reg, .. } = a.num {
         let r = if reg { s.feed(&scc(c, 100, lsb)) } else { s.feed(&scc(c, 98, lsb)) };
-        assert!(none2(&r), "C14 nothing is reported before a number is complete");
+        check!(none2(&r), "C14 nothing is reported before a number is complete");
         // stage 3: first value byte
         let (has3, is6, byte) = match a.val {
             Val::Idle => (false, false, 0),
@@ -203,12 +204,12 @@ pub fn gen_channel(s: &mut Scanner, c: u8, a: &ChObs) {
         };
         if has3 {
             let r = if is6 { s.feed(&scc(c, 6, byte)) } else { s.feed(&scc(c, 38, byte)) };
-            assert!(none2(&r), "C12 a first value byte reports nothing yet");
+            check!(none2(&r), "C12 a first value byte reports nothing yet");
         }
         // stage 4: the LSB completing a 14-bit value
         if let Val::Done14 { lsb: vl, .. } = a.val {
             let r = s.feed(&scc(c, 38, vl));
-            assert!(r[0].is_some() && r[1].is_none(), "C12 MSB,LSB reports one 14-bit message at the second byte");
+            check!(r[0].is_some() && r[1].is_none(), "C12 MSB,LSB reports one 14-bit message at the second byte");
         }
     }
 }
@@ -244,7 +245,7 @@ pub fn order_lemma<N: Nd>(nd: &mut N, mask: u16, last: u8) {
     let timeout = any_t(nd);
     let a = any_obs(nd, mask);
     let base = gen_except(&a, timeout, last);
-    assert!(gen_on(&base, last, &a.ch[last as usize]) == gen(&a, timeout), "C15 the order in which channels are brought into their states does not matter");
+    check!(gen_on(&base, last, &a.ch[last as usize]) == gen(&a, timeout), "C15 the order in which channels are brought into their states does not matter");
     witness!(nd, a.ch[last as usize].num != Num::None, "non-initial");
 }
 
@@ -441,12 +442,12 @@ fn c14_clauses(pre: &ChObs, ch: u8, d1: Option<u8>, d2: u8, out: &[Option<Pnm>; 
         _ => None,
     };
     if out[1].is_some() {
-        assert!(out[0].is_some(), "C14 never a second message without a first");
-        assert!(
+        check!(out[0].is_some(), "C14 never a second message without a first");
+        check!(
             (d1 == Some(96) || d1 == Some(97)) && pending_msb.is_some(),
             "C14 two messages only for an increment/decrement that follows a pending MSB"
         );
-        assert!(
+        check!(
             out[0].unwrap().data_type() == DataType::DataEntry && out[1].unwrap().data_type() != DataType::DataEntry,
             "C14 the data entry first, then the increment/decrement"
         );
@@ -454,13 +455,13 @@ fn c14_clauses(pre: &ChObs, ch: u8, d1: Option<u8>, d2: u8, out: &[Option<Pnm>; 
     let mut i = 0;
     while i < 2 {
         if let Some(m) = &out[i] {
-            assert!(m.channel().get() == ch, "C14 C15 every reported message carries the channel of the triggering call");
-            assert!(nr.is_some(), "C14 nothing is reported before a number is complete");
+            check!(m.channel().get() == ch, "C14 C15 every reported message carries the channel of the triggering call");
+            check!(nr.is_some(), "C14 nothing is reported before a number is complete");
             let (n, r) = nr.unwrap();
-            assert!(m.number().get() == n && m.is_registered() == r, "C14 number and registered flag are those of the latest number bytes received before the call");
+            check!(m.number().get() == n && m.is_registered() == r, "C14 number and registered flag are those of the latest number bytes received before the call");
             match (m.data_type(), m.is_14_bit()) {
                 (DataType::DataEntry, false) => {
-                    assert!(pending_msb == Some(m.value().get() as u8) && m.value().get() <= 127, "C14 a 7-bit value is the most recent unreported controller-6 byte");
+                    check!(pending_msb == Some(m.value().get() as u8) && m.value().get() <= 127, "C14 a 7-bit value is the most recent unreported controller-6 byte");
                 }
                 (DataType::DataEntry, true) => {
                     let (vm, vl) = (o::hi7(m.value().get()), o::lo7(m.value().get()));
@@ -470,14 +471,14 @@ fn c14_clauses(pre: &ChObs, ch: u8, d1: Option<u8>, d2: u8, out: &[Option<Pnm>; 
                         (Val::Done14 { msb, .. }, Some(38)) => vm == msb && vl == d2,
                         _ => false,
                     };
-                    assert!(ok, "C14 a 14-bit value consists of the most recent controller-6 and controller-38 bytes up to and including the current message");
+                    check!(ok, "C14 a 14-bit value consists of the most recent controller-6 and controller-38 bytes up to and including the current message");
                 }
                 _ => {
-                    assert!(
+                    check!(
                         (m.data_type() == DataType::DataIncrement && d1 == Some(96)) || (m.data_type() == DataType::DataDecrement && d1 == Some(97)),
                         "C14 increment/decrement is reported only for controller 96/97"
                     );
-                    assert!(m.value().get() == d2 as u16 && !m.is_14_bit(), "C14 increment/decrement carries the current message's value");
+                    check!(m.value().get() == d2 as u16 && !m.is_14_bit(), "C14 increment/decrement carries the current message's value");
                 }
             }
         }
@@ -497,7 +498,7 @@ fn c14_clauses(pre: &ChObs, ch: u8, d1: Option<u8>, d2: u8, out: &[Option<Pnm>; 
                 }
                 None => false,
             };
-            assert!(reported, "C14 a pending controller-6 byte is reported no later than the next contributing message or the first poll after the timeout");
+            check!(reported, "C14 a pending controller-6 byte is reported no later than the next contributing message or the first poll after the timeout");
         }
     }
 }
@@ -525,16 +526,16 @@ pub fn step_feed<N: Nd>(nd: &mut N, mask: u16, ch: u8) {
     let out_ok0 = same(&out[0], ch, e[0]);
     let out_ok1 = same(&out[1], ch, e[1]);
     if !o::is_pn_controller(d1) {
-        assert!(out[0].is_none() && out[1].is_none(), "C16 controller outside {6,38,96-101} reports nothing");
+        check!(out[0].is_none() && out[1].is_none(), "C16 controller outside {6,38,96-101} reports nothing");
         // the observer does not move, so the expected post-state is the pre-state
-        assert!(a.ch[ch as usize] == pre && post_ok, "C16 controller outside {6,38,96-101} leaves the scanner in an equal state");
+        check!(a.ch[ch as usize] == pre && post_ok, "C16 controller outside {6,38,96-101} leaves the scanner in an equal state");
     }
     if open_corner(&pre, d1) {
-        assert!(out_ok0 && out_ok1 && post_ok, "harness: behaviour changed in a corner (LSB followed by LSB or inc/dec) that C12-C14 leave open; the observer must be updated");
+        check!(out_ok0 && out_ok1 && post_ok, "harness: behaviour changed in a corner (LSB followed by LSB or inc/dec) that C12-C14 leave open; the observer must be updated");
     } else {
-        assert!(out_ok0, "C12 C14 first reported message is exactly the intended one");
-        assert!(out_ok1, "C12 C14 second reported message is exactly the intended one");
-        assert!(post_ok, "C12 C13 C14 C15 post-state is the state of the advanced observer (only the addressed channel changes, arrival stamped with the current time)");
+        check!(out_ok0, "C12 C14 first reported message is exactly the intended one");
+        check!(out_ok1, "C12 C14 second reported message is exactly the intended one");
+        check!(post_ok, "C12 C13 C14 C15 post-state is the state of the advanced observer (only the addressed channel changes, arrival stamped with the current time)");
     }
     witness!(nd, out[1].is_some(), "two messages");
     witness!(nd, out[0].map_or(false, |m| m.is_14_bit()), "14-bit report");
@@ -560,29 +561,29 @@ pub fn step_poll<N: Nd>(nd: &mut N, mask: u16, ch: u8) {
     };
     let exp = pend.map_or(false, |(_, _, t)| expired(now, t, timeout));
     if out.is_some() {
-        assert!(pend.map_or(false, |(m, _, _)| m), "C13 poll returns a message only if a data entry MSB is pending");
-        assert!(exp, "C13 poll returns a message only if at least the timeout has passed since the MSB was fed");
+        check!(pend.map_or(false, |(m, _, _)| m), "C13 poll returns a message only if a data entry MSB is pending");
+        check!(exp, "C13 poll returns a message only if at least the timeout has passed since the MSB was fed");
     }
     let e = spec_poll(&mut a.ch[ch as usize], now, timeout);
     let post_ok = s == gen_on(&base, ch, &a.ch[ch as usize]);
     if !exp {
-        assert!(out.is_none(), "C13 a poll before the timeout returns nothing");
+        check!(out.is_none(), "C13 a poll before the timeout returns nothing");
         // the observer does not move, so the expected post-state is the pre-state
-        assert!(a.ch[ch as usize] == pre && post_ok, "C13 a poll before the timeout has no effect");
+        check!(a.ch[ch as usize] == pre && post_ok, "C13 a poll before the timeout has no effect");
     }
     if let Some((false, _, _)) = pend {
-        assert!(out.is_none(), "C13 an unpaired data entry LSB is never reported");
+        check!(out.is_none(), "C13 an unpaired data entry LSB is never reported");
     }
     c14_clauses(&pre, ch, None, 0, &[out, None], exp);
-    assert!(same(&out, ch, e), "C13 C12 poll returns exactly the pending 7-bit message once the timeout has passed");
-    assert!(post_ok, "C13 C15 post-state of poll is the state of the advanced observer (pending value consumed exactly when the timeout has passed)");
+    check!(same(&out, ch, e), "C13 C12 poll returns exactly the pending 7-bit message once the timeout has passed");
+    check!(post_ok, "C13 C15 post-state of poll is the state of the advanced observer (pending value consumed exactly when the timeout has passed)");
     if exp {
         // consumed: a further poll (at any later time) returns nothing until new input arrives
         let later = any_t(nd);
         nd.assume(now.le(later));
         set_now(later.dur());
         let again = s.poll(chv(ch));
-        assert!(again.is_none(), "C13 further polls return nothing until new input arrives");
+        check!(again.is_none(), "C13 further polls return nothing until new input arrives");
     }
     witness!(nd, out.is_some(), "poll reported");
     witness!(nd, pend.map_or(false, |(m, _, _)| m) && !exp, "pending MSB, timeout not reached");
@@ -605,7 +606,7 @@ pub fn feed_time_independent<N: Nd>(nd: &mut N, mask: u16, ch: u8) {
     let o1 = s1.feed(&cc(ch, d1, d2));
     set_now(t2.dur());
     let o2 = s2.feed(&cc(ch, d1, d2));
-    assert!(o1 == o2, "C13 the passage of time never changes what feed returns");
+    check!(o1 == o2, "C13 the passage of time never changes what feed returns");
     witness!(nd, o1[0].is_some() && t1 != t2, "report at two different instants");
 }
 
@@ -621,10 +622,10 @@ pub fn step_other<N: Nd>(nd: &mut N, mask: u16) {
     nd.assume(t.0 & 0xF0 != 0xB0);
     set_now(now.dur());
     let out = s.feed(&raw_of(t));
-    assert!(out[0].is_none() && out[1].is_none(), "C16 C15 a message that is not a Control Change reports nothing");
-    assert!(s == before, "C16 C15 a message that is not a Control Change leaves the scanner in an equal state");
+    check!(out[0].is_none() && out[1].is_none(), "C16 C15 a message that is not a Control Change reports nothing");
+    check!(s == before, "C16 C15 a message that is not a Control Change leaves the scanner in an equal state");
     let out2 = s.feed(&raw_of(t).to_structured());
-    assert!(out2[0].is_none() && out2[1].is_none() && s == before, "C16 C15 same for the structured representation");
+    check!(out2[0].is_none() && out2[1].is_none() && s == before, "C16 C15 same for the structured representation");
     witness!(nd, t.0 >= 0xF0, "system message");
     witness!(nd, t.0 < 0xB0, "channel voice message");
 }
@@ -636,8 +637,8 @@ pub fn reset_and_copy<N: Nd>(nd: &mut N, mask: u16) {
     nd.assume(valid_at(&a, now));
     let mut s = gen(&a, timeout);
     let copy = s;
-    assert!(gen(&EMPTY, timeout) == Scanner::new(timeout.dur()), "C12 base case: the empty observer is the new scanner");
-    assert!(Scanner::default() == Scanner::new(Duration::from_secs(0)), "C17 default() equals new with a zero timeout");
+    check!(gen(&EMPTY, timeout) == Scanner::new(timeout.dur()), "C12 base case: the empty observer is the new scanner");
+    check!(Scanner::default() == Scanner::new(Duration::from_secs(0)), "C17 default() equals new with a zero timeout");
     let c = nd.u8_le(15);
     let d1 = nd.u8_le(127);
     let d2 = nd.u8_le(127);
@@ -645,11 +646,11 @@ pub fn reset_and_copy<N: Nd>(nd: &mut N, mask: u16) {
     let mut s2 = copy;
     set_now(now.dur());
     let o1 = s.feed(&m);
-    assert!(s2 == copy, "C17 stepping the original leaves the copy untouched");
+    check!(s2 == copy, "C17 stepping the original leaves the copy untouched");
     let o2 = s2.feed(&m);
-    assert!(o1 == o2 && s == s2, "C17 a copy evolves identically");
+    check!(o1 == o2 && s == s2, "C17 a copy evolves identically");
     s.reset();
-    assert!(s == Scanner::new(timeout.dur()), "C17 C13 after reset() the scanner equals a new one with the same timeout");
+    check!(s == Scanner::new(timeout.dur()), "C17 C13 after reset() the scanner equals a new one with the same timeout");
     witness!(nd, copy != Scanner::new(timeout.dur()), "non-initial state");
     witness!(nd, timeout.s > 0, "non-zero timeout");
 }
@@ -693,12 +694,12 @@ pub fn roundtrip<N: Nd>(nd: &mut N, mask: u16, ch: u8, kind: u8) {
             set_now(times[i].dur());
             let out = s.feed(m);
             if i == 0 {
-                assert!(out[0] == flush && out[1].is_none(), "C12 the first number byte reports at most the flush of a value pending from earlier traffic");
+                check!(out[0] == flush && out[1].is_none(), "C12 the first number byte reports at most the flush of a value pending from earlier traffic");
             } else {
                 let mut j = 0;
                 while j < 2 {
                     if let Some(x) = out[j] {
-                        assert!(x == msg, "C12 only the fed message is reported");
+                        check!(x == msg, "C12 only the fed message is reported");
                         seen_msg += 1;
                     }
                     j += 1;
@@ -714,12 +715,12 @@ pub fn roundtrip<N: Nd>(nd: &mut N, mask: u16, ch: u8, kind: u8) {
     set_now(tp.dur());
     let p = s.poll(chv(ch));
     if let Some(x) = p {
-        assert!(x == msg, "C12 only the fed message is reported by poll");
+        check!(x == msg, "C12 only the fed message is reported by poll");
         seen_msg += 1;
     }
-    assert!(seen_msg == 1, "C12 feeding the encoding and polling after the timeout reports exactly that message, once");
+    check!(seen_msg == 1, "C12 feeding the encoding and polling after the timeout reports exactly that message, once");
     if kind == 0 {
-        assert!(p.is_some(), "C12 a lone MSB is reported by the first poll after the timeout");
+        check!(p.is_some(), "C12 a lone MSB is reported by the first poll after the timeout");
     }
     witness!(nd, flush.is_some(), "flush of an earlier pending value");
     witness!(nd, lsb_first, "LSB first");
@@ -757,7 +758,7 @@ impl Log {
         }
     }
     fn push2(&mut self, x: [Option<Pnm>; 2]) {
-        assert!(x[0].is_some() || x[1].is_none(), "C14 never a second message without a first");
+        check!(x[0].is_some() || x[1].is_none(), "C14 never a second message without a first");
         self.push(x[0]);
         self.push(x[1]);
     }
@@ -783,7 +784,7 @@ pub fn sentences<N: Nd>(nd: &mut N, ch: u8) {
     } else {
         (s.feed(&cc(ch, cl, o::lo7(number))), s.feed(&cc(ch, cm, o::hi7(number))))
     };
-    assert!(none2(&r1) && none2(&r2), "C12 C14 the number selection reports nothing");
+    check!(none2(&r1) && none2(&r2), "C12 C14 the number selection reports nothing");
     let mut seen = Log::new();
     let mut want = Log::new();
     let mut have14: Option<u8> = None;
@@ -800,7 +801,7 @@ pub fn sentences<N: Nd>(nd: &mut N, ch: u8) {
         if nd.bool() {
             nd.assume(pending.map_or(true, |p| !expired(now, p, timeout)));
             set_now(now.dur());
-            assert!(s.poll(chv(ch)).is_none(), "C12 C13 an early poll reports nothing");
+            check!(s.poll(chv(ch)).is_none(), "C12 C13 an early poll reports nothing");
         }
         // optional non-contributing message
         if nd.bool() {
@@ -809,7 +810,7 @@ pub fn sentences<N: Nd>(nd: &mut N, ch: u8) {
             nd.assume(!o::is_pn_controller(dn));
             set_now(now.dur());
             let r = s.feed(&cc(ch, dn, dv));
-            assert!(none2(&r), "C16 C12 a non-contributing message reports nothing");
+            check!(none2(&r), "C16 C12 a non-contributing message reports nothing");
         }
         let w = nd.u8_le(127);
         let l = nd.u8_le(127);
@@ -855,10 +856,10 @@ pub fn sentences<N: Nd>(nd: &mut N, ch: u8) {
     nd.assume(now.le(t) && pending.map_or(true, |p| expired(t, p, timeout)));
     set_now(t.dur());
     seen.push(s.poll(chv(ch)));
-    assert!(seen.n == want.n, "C12 every intended message is reported exactly once (count)");
+    check!(seen.n == want.n, "C12 every intended message is reported exactly once (count)");
     let mut i = 0;
     while i < 12 {
-        assert!(seen.m[i] == want.m[i], "C12 the reported messages are exactly the intended ones, in order");
+        check!(seen.m[i] == want.m[i], "C12 the reported messages are exactly the intended ones, in order");
         i += 1;
     }
     witness!(nd, want.n == 3 && pending.is_some(), "sentence ending in a lone MSB");
@@ -888,18 +889,18 @@ pub fn interleave<N: Nd>(nd: &mut N, c1: u8, c2: u8) {
         if is_poll {
             let o_both = both.poll(chv(c));
             let o_own = if first { own1.poll(chv(c)) } else { own2.poll(chv(c)) };
-            assert!(o_both == o_own, "C15 interleaved stream: poll reports what the channel's own scanner reports");
+            check!(o_both == o_own, "C15 interleaved stream: poll reports what the channel's own scanner reports");
             if let Some(x) = o_both {
-                assert!(x.channel().get() == c, "C15 reported channel is the polled channel");
+                check!(x.channel().get() == c, "C15 reported channel is the polled channel");
                 reported += 1;
             }
         } else {
             let m = cc(c, pn_controller(which), d2);
             let o_both = both.feed(&m);
             let o_own = if first { own1.feed(&m) } else { own2.feed(&m) };
-            assert!(o_both == o_own, "C15 interleaved stream reports what the channel's own scanner reports");
+            check!(o_both == o_own, "C15 interleaved stream reports what the channel's own scanner reports");
             if let Some(x) = o_both[0] {
-                assert!(x.channel().get() == c, "C15 reported channel is the input's channel");
+                check!(x.channel().get() == c, "C15 reported channel is the input's channel");
                 reported += 1;
             }
         }
@@ -916,5 +917,5 @@ pub fn twin<N: Nd>(nd: &mut N) {
     nd.assume(valid_at(&a, now));
     let mut s = gen(&a, timeout);
     set_now(now.dur());
-    assert!(s.poll(chv(0)).is_none(), "twin: deliberately false");
+    check!(s.poll(chv(0)).is_none(), "twin: deliberately false");
 }
